@@ -97,6 +97,8 @@ func runC02(r *oblig.Report) {
 	r.Rule("C02.7", "instance-table", "no success with empty text unless the input is empty", 8)
 	e5path.ValidatorGuard(c.P, r, "R5.1")
 	e5path.FirstPositionRecursion(c.P, r, "C02.1b")
+	r.Rule("C02.1c", "path-enumeration", "the printable-position predicate answers true exactly on evidence of a direct assignment in a printable place and false only when there is none and no operand left to look into", 1)
+	e5path.FirstPositionEvidence(c.P, r, "C02.1c")
 	e5path.ErrorConstructors(c.P, r, "R5.5", fs, []string{"UnsupportedDSLNestingError", "ConditionNameDoesntMatchError", "ConditionParamMissingGenericTypeError"})
 	e5path.HoistShape(c.P, r, "C02.4")
 	e5path.NoEmptySuccess(c.P, r, "C02.7", fs)
